@@ -50,7 +50,7 @@ def check(cond, clause, sig=None, detail=""):
 class Ob:
     """One proof obligation: a harness function with primitive typed parameters plus its bookkeeping."""
 
-    def __init__(self, name, fn, warm, bounds, expect=(), timeout=120.0, per_path=30.0, stub_repr=True, notes=""):
+    def __init__(self, name, fn, warm, bounds, expect=(), timeout=120.0, per_path=30.0, stub_repr=True, notes="", group=None):
         self.name = name
         self.fn = fn
         self.warm = list(warm)
@@ -60,6 +60,7 @@ class Ob:
         self.per_path = per_path
         self.stub_repr = stub_repr
         self.notes = notes
+        self.group = group  # shards of one space: the non-vacuity requirement applies to the group as a whole
 
 
 def pick(pool, idx):
